@@ -212,27 +212,7 @@ Fixpoint occ_positions (l : list N) (v pos : N) : list N :=
   | x :: t => if x =? v then pos :: occ_positions t v (pos + 1) else occ_positions t v (pos + 1)
   end.
 
-Definition C09_wm_total_statement
-  (T : Type) (repr : T -> list N -> Prop)
-  (q_rank : mode -> T -> N -> N -> res N)                      (* rank(index, value) *)
-  (q_select : mode -> T -> N -> N -> res (option N))            (* select(rank, value) *)
-  (q_inverse_select : mode -> T -> N -> res (option (N * N)))
-  (q_pred q_succ q_select_iter : mode -> T -> N -> N -> res (option (N * N)))   (* first item *)
-  (q_map_down_with : mode -> T -> N -> N -> res N)
-  (q_map_up_with : mode -> T -> N -> N -> res (option N)) : Prop :=
-  forall m w L, repr w L ->
-    (forall i v, i < 2 ^ 64 -> v < 2 ^ 64 -> q_rank m w i v = Ok (occ_before L i v)) /\
-    (forall r v, r < 2 ^ 64 -> v < 2 ^ 64 -> q_select m w r v = Ok (nth_opt (occ_positions L v 0) r)) /\
-    (forall r v, r < 2 ^ 64 -> v < 2 ^ 64 -> lenN (occ_positions L v 0) <= r ->
-       q_select m w r v = Ok None /\ q_select_iter m w r v = Ok None) /\
-    (forall i, i < 2 ^ 64 -> lenN L <= i -> q_inverse_select m w i = Ok None) /\
-    (forall i v, i < 2 ^ 64 -> v < 2 ^ 64 ->
-       q_pred m w i v = Ok (hd_error (pred_suffix_aux (index_from (occ_positions L v 0) 0) i [])) /\
-       q_succ m w i v = Ok (hd_error (drop_below (index_from (occ_positions L v 0) 0) i))) /\
-    (forall i v, i < 2 ^ 64 -> v < 2 ^ 64 -> lenN L <= i ->
-       q_succ m w i v = Ok None /\ (0 < lenN L -> q_pred m w i v = q_pred m w (lenN L - 1) v)) /\
-    (forall i v, i < 2 ^ 64 -> v < 2 ^ 64 -> exists p, q_map_down_with m w i v = Ok p) /\
-    (forall i v, i < 2 ^ 64 -> v < 2 ^ 64 -> exists p, q_map_up_with m w i v = Ok p).
+(* the wavelet matrix / WMCore reading is proved: C09_wm_total in Props/C09_wm.v *)
 
 (* ---- non-vacuity ---- *)
 
